@@ -35,7 +35,7 @@ def _bits(x):
     return "%08x" % struct.unpack("I", struct.pack("f", x))[0]
 
 
-_num = st.tuples(st.integers(-999999, 999999), st.integers(-37, 32)).map(lambda t: float("%de%d" % t)).filter(lambda x: abs(x) < 3e38).map(lambda x: {"t": "bits", "v": _bits(f32(x))})
+_num = st.tuples(st.integers(-999999, 999999), st.one_of(st.integers(-37, 32), st.integers(-37, 32), st.integers(-51, -38))).map(lambda t: float("%de%d" % t)).filter(lambda x: abs(x) < 3e38).map(lambda x: {"t": "bits", "v": _bits(f32(x))})
 _chars = st.one_of(st.sampled_from(list('"\'\n\t {}[];,\\#/*')), st.integers(1, 255).map(chr), st.sampled_from(list("abcXYZ019")))
 _str = st.lists(_chars, max_size=12).map(lambda l: {"t": "str", "v": "".join(l)})
 _code_txt = st.sampled_from(["", "1", "a = 1; b", "_x + 1", "[1,2] select 0", "if (a) then {b} else {c}", "-1", "1 - -1", "private _a = 2; _a", "(1 + 2) * 3", "1 + (2 - 3)", "- (1 + 2)", "!(a && b)", '"q""q"', "{{1}}", "a # 1 # 2"]).map(lambda t: {"t": "code", "v": t})
@@ -43,7 +43,7 @@ _leaf = st.one_of(_num, _num, st.booleans().map(lambda b: {"t": "bool", "v": b})
 _value = st.recursive(_leaf, lambda ch: st.lists(ch, max_size=4).map(lambda l: {"t": "arr", "v": l}), max_leaves=12)
 
 _literals = st.one_of(
-    st.tuples(st.integers(0, 999999), st.integers(-30, 30), st.sampled_from(["e", "E"]), st.sampled_from(["", "+", "-"])).map(
+    st.tuples(st.integers(0, 999999), st.one_of(st.integers(-30, 30), st.integers(-30, 30), st.integers(-50, -31)), st.sampled_from(["e", "E"]), st.sampled_from(["", "+", "-"])).map(
         lambda t: "%d%s%s%d" % (t[0], t[2], t[3] if t[1] >= 0 else "-", abs(t[1]))),
     st.tuples(st.integers(0, 99999), st.integers(0, 99999)).map(lambda t: "%d.%d" % t),
     st.integers(0, 999999).map(lambda i: ".%d" % i),
@@ -52,7 +52,7 @@ _literals = st.one_of(
     st.integers(0, 0xFFFFFF).map(lambda i: "$%X" % i),
     st.integers(0, 0xFFFFFF).map(lambda i: "0x%x" % i),
     st.integers(0, 0xFFFFFFF).map(lambda i: "0x%X" % i),
-    st.sampled_from(["0", "00", "0.0", "1e0", "16777217", "0x0", "$0", "1e38", "3.40282e38", "1e-37", "007", "1.5e+3"]),
+    st.sampled_from(["0", "00", "0.0", "1e0", "16777217", "0x0", "$0", "1e38", "3.40282e38", "1e-37", "007", "1.5e+3", "1e-40", "2.5e-39", "1.4e-45", "1e-46", "1.17549e-38", "9.99995e-41"]),
 )
 _strlit = st.tuples(st.sampled_from(['"', "'"]), st.lists(st.one_of(st.sampled_from(list('"\'\n {}')), st.integers(1, 255).map(chr), st.sampled_from(list("abc"))), max_size=10))
 
